@@ -30,6 +30,7 @@ class CompilationUnit(EvaluationContext):
             '_main', 'toplevel', self, params=[])
 
         self.all_labels = set()
+        self.label_order = []  # canonical names, in source order
         self.routines = {'_main': self.main_routine}
         self.global_vars = {}
         self.def_letter_types = {}  # maps a single letter to a type
@@ -232,6 +233,7 @@ class Pass1(CompilePass):
                 node=node)
         node.parent_routine.labels.add(node.name)
         self.compilation.all_labels.add(node.name)
+        self.compilation.label_order.append(node.canonical_name)
         self._last_label = node.canonical_name
 
     def process_lineno_pre(self, node):
@@ -242,6 +244,7 @@ class Pass1(CompilePass):
                 node=node)
         node.parent_routine.labels.add(node.canonical_name)
         self.compilation.all_labels.add(node.canonical_name)
+        self.compilation.label_order.append(node.canonical_name)
         self._last_label = node.canonical_name
 
     def process_def_type_pre(self, node):
